@@ -9,6 +9,23 @@
      fin       = normalize_cn / sorted_cn_paths / best_cn_path on the last network
      single    = best_cn_path / sorted_cn_paths on the network built from the first hypothesis alone
 
+   Trace kinds that differ only in HOW the driver obtained the recorded networks (harness/cn_common.py); all are judged by
+   the same clauses below, nothing about them is decided in Python:
+     plain          fresh objects for every history (replay_history);
+     reuse.grow     mode "boh": ONE long-lived bag object, nets[j] = its export after the j-th add; between the recorded exports
+                    the same bag is exported with another weight pair, normalised, and once by a call that fails; fin.norm is the
+                    bag's own normalised export, taken BEFORE the last recorded (unnormalised) export;
+     reuse.resort   mode "boh": that bag after its own sort(); hyps = its new iteration order, nets[j] (j < n) from fresh bags of
+                    the first j hypotheses, nets[n] and fin.norm = exports of the long-lived, re-ordered bag - TAdd for the last
+                    step says: the export of the re-used bag is one addition (score of its n-th hypothesis) away from the export of
+                    its first n-1 hypotheses;
+     session        mode "add": the history was executed in a process that had already executed > 1024 resp. > 65 536 DISTINCT
+                    two-step histories, two failing calls and (pass 2) this very history once before.  TLC cannot enumerate the
+                    140 000 additions of such a process: only a sample of the histories is recorded and validated, the history
+                    BEFORE a recorded addition is not in the trace (it is in the replay file: session.spec / pass / index) - the
+                    statement is about every single addition, so each recorded one is judged on its own.
+   The fields `reuse` / `session` are not read here.
+
    Weights are kept in thousandths (a changed implementation that produces fractional weights is a mismatch,
    not a parse error); every operator of the design module is linear in the weights.
 
